@@ -88,6 +88,7 @@ def classify(e, form, decompiler_changed_meaning):
         # the expression the decompiler hands to the translator reads differently from the source (C03's territory, reaches C01 too)
         if has(lambda s: s[0] == 'ite'): return 'decompiler-conditional-expression-in-boolean-context'
         if has(lambda s: s[0] == 'cmp' and any(x[0] in ('and', 'or') for x in s[2:4])): return 'decompiler-and-or-used-as-value'
+        if has(lambda s: s[0] in ('and', 'or') and any(x[0] in ('int', 'str', 'bool', 'param') for x in s[1:3])): return 'decompiler-and-or-with-constant-operand'
         return None
     if form == 'filter' and Q.is_value(e) and Q.static_type(e) != 'bool':
         return 'filter-lambda-value-not-truth-tested'
@@ -225,17 +226,20 @@ def report_violation(ctx, db, E, rows, e, params, form, got, expected):
     def failing(x):
         try: return rows_of(E, x, params, form) != exp_of(x)
         except Exception: return False
-    small = Q.shrink(e, failing)
+    def dec_changed(x):
+        if form not in ('generator', 'lambda'): return False
+        try:
+            tex = Forms(E, Q.src(x), params).decompiled(form)
+            return any(Q.as_k(Q.py_eval(tex, r, params)) != Q.as_k(Q.py_eval(x, r, params)) for r in rows)
+        except Exception:
+            return False
+    cls0 = classify(e, form, dec_changed(e))
+    # shrink inside the class of the original failure (otherwise the shrinker drifts into other defects)
+    small = Q.shrink(e, (lambda x: failing(x) and classify(x, form, dec_changed(x)) == cls0) if cls0 else failing)
     try: g = rows_of(E, small, params, form)
     except Exception as ex: g = 'raised ' + type(ex).__name__
     exp = exp_of(small)
-    string_ok = False
-    if form in ('generator', 'lambda'):
-        try:
-            tex = Forms(E, Q.src(small), params).decompiled(form)
-            string_ok = any(Q.as_k(Q.py_eval(tex, r, params)) != Q.as_k(Q.py_eval(small, r, params)) for r in rows)
-        except Exception:
-            string_ok = False
+    string_ok = dec_changed(small)
     wrong = sorted(set(g) ^ set(exp)) if isinstance(g, list) else []
     witness = rows[wrong[0] - 1] if wrong else None
     used = sorted({s[1] for s in Q.subexprs(small) if s[0] == 'attr'})
@@ -262,6 +266,8 @@ WITNESSES = [
     ('int-compared-with-str-affinity', 'string', ('cmp', '==', ('attr', 'a'), ('attr', 's')), [{'a': 1, 's': '1'}]),
     ('filter-lambda-value-not-truth-tested', 'filter', ('attr', 's'), [{'s': 'q'}]),
     ('decompiler-conditional-expression-in-boolean-context', 'generator', ('or', ('attr', 'b'), ('ite', ('attr', 'nb'), ('attr', 'nb'), ('attr', 'nb'))), [{'b': True, 'nb': None}]),
+    ('decompiler-and-or-used-as-value', 'generator', ('cmp', '==', ('attr', 'b'), ('and', ('attr', 'nb'), ('attr', 'b'))), [{'b': False, 'nb': True}, {'b': True, 'nb': False}, {'b': False, 'nb': False}]),
+    ('decompiler-and-or-with-constant-operand', 'generator', ('or', ('attr', 't'), ('int', 1)), [{'t': 'x'}]),
 ]
 BASE_ROW = {'a': 0, 'c': 0, 'n': 0, 'm': 0, 'b': False, 'nb': False, 's': 'a', 't': '', 'ns': ''}
 
@@ -287,8 +293,90 @@ def run_witnesses(ctx):
         db.disconnect()
 
 
+def run_projections(ctx, n_exprs):
+    """projections `select((e.id, <value expression>) for e in E)`: correspondence of the column, values returned vs the Python
+    value (missing = None), Lean evaluator vs SQLite — theorem C01_proj"""
+    rng = ctx.rng
+    gen = Q.Gen(rng, 'frag')
+    sch = Q.schema_json()
+    db, E = fresh_db()
+    rows = [Q.random_row(rng) for _ in range(ctx.scale(10, 30))]
+    rows.append({'a': 0, 'c': 0, 'n': None, 'm': None, 'b': False, 'nb': None, 's': 'a', 't': '', 'ns': None})
+    load_rows(db, E, rows)
+    tr_reqs = []; tr_meta = []; ev_reqs = []; ev_meta = []
+    from pony.orm.decompiling import decompile
+    with db_session:
+        for _ in range(n_exprs):
+            ty = rng.choice(['int', 'int', 'str', 'bool'])
+            for _t in range(20):
+                e = gen.val(ty, rng.choice([1, 2, 3]), True)
+                if Q.has_attr(e) and not Q.closed_compound(e) and e[0] != 'attr': break
+            params = Q.random_params(rng)
+            s = Q.src(e)
+            G = dict(params); G.update(E=E, select=select)
+            expected = [(i + 1, Q.as_v(Q.py_eval(e, r, params))) for i, r in enumerate(rows)]
+            ctx.count('proj:exprs'); ctx.count('proj:type:' + ty)
+            for sub in Q.subexprs(e): ctx.count('proj:node:' + sub[0])
+            for form in ('generator', 'string'):
+                ctx.case(['proj', form, s], kind='proj:' + form)
+                tex = e
+                try:
+                    if form == 'generator':
+                        q = eval('select((e.id, %s) for e in E)' % s, G)
+                        try: tex = Q.expr_of_ast(decompile(eval('((e.id, %s) for e in E)' % s, G))[0].elt.elts[1])
+                        except Exception: tex = None
+                    else:
+                        q = select('(e.id, %s) for e in E' % s, G)
+                    real = {'ok': Q.norm_ast(q._translator.expr_columns[1])}
+                except Exception as ex:
+                    q = None; real = {'error': Q.exc_class(ex)}
+                    ctx.count('proj:%s:raises:%s' % (form, real['error']))
+                if real.get('error') in ('DecompileError', 'IndexError') and form == 'generator': continue
+                if tex is not None and not Q.closed_compound(tex):
+                    tr_reqs.append({'op': 'translate', 'dialect': 'sqlite', 'schema': sch, 'expr': Q.to_json(tex)}); tr_meta.append((s, form, real))
+                if q is None: continue
+                try:
+                    got = sorted(q[:])
+                except Exception as ex:
+                    ctx.count('proj:execution-raises:' + type(ex).__name__); continue
+                got = [(i, v) for i, v in got]
+                if [(i, v, type(v) is bool) for i, v in got] != [(i, v, type(v) is bool) for i, v in expected]:
+                    bad = [(g, x) for g, x in zip(got, expected) if g != x or (type(g[1]) is bool) != (type(x[1]) is bool)][:2]
+                    key = 'bool-arithmetic-typed-bool' if any(x[0] in ('bin', 'neg', 'abs') and all(Q.static_type(y) == 'bool' for y in x[1:] if isinstance(y, tuple)) for x in Q.subexprs(e)) \
+                        else 'proj:%s:%s' % (form, json.dumps(Q.to_json(Q.canon_atoms(e))))
+                    ctx.violation('values returned by a projection differ from Python evaluation (%s form)' % form,
+                                  {'query': 'select((e.id, %s) for e in E)' % s, 'form': form, 'row': rows[bad[0][1][0] - 1] if bad else None},
+                                  observed=[b[0] for b in bad], expected=[b[1] for b in bad], key=key)
+                if form == 'string':
+                    try:
+                        sql, args, _, _ = q._construct_sql_and_arguments()
+                        m = re.match(r'SELECT (?:DISTINCT )?"e"\."id", (.*)\nFROM', sql, re.S)
+                        cur = db.get_connection().execute('SELECT "e"."id", (%s) FROM "E" "e" ORDER BY 1' % m.group(1), args)
+                        lite = [v for _, v in cur.fetchall()]
+                        ev_reqs.append({'op': 'evalsql', 'dialect': 'sqlite', 'value': True, 'sql': [Q.norm_ast(q._translator.expr_columns[1])], 'params': params, 'rows': rows})
+                        ev_meta.append((s, lite))
+                    except Exception as ex:
+                        ctx.count('proj:sqlite-error:' + type(ex).__name__)
+    db.disconnect()
+    if not ctx.driver.ok: return
+    for (s, form, real), out in zip(tr_meta, ctx.driver('C01', tr_reqs)):
+        mp = out['projection']
+        ctx.count('proj:correspondence-checked')
+        if out.get('frag') and out.get('valueSorted'): ctx.count('proj:in-theorem-fragment')
+        if 'ok' in real:
+            if mp.get('ok') != real['ok']:
+                ctx.divergence('model projection column differs from query._translator.expr_columns (%s form)' % form, {'expr': s}, model=mp, impl=real)
+        elif mp.get('error') != real['error']:
+            ctx.divergence('model and real translator disagree on the error of a projection (%s form)' % form, {'expr': s}, model=mp, impl=real)
+    for (s, lite), out in zip(ev_meta, ctx.driver('C01', ev_reqs)):
+        ctx.count('proj:evaluator-checked')
+        if out.get('ok') != lite:
+            ctx.divergence('Lean Sql.eval differs from real SQLite on a projection column', {'expr': s}, model=out.get('ok'), impl=lite)
+
+
 def run(ctx):
     run_witnesses(ctx)
+    run_projections(ctx, ctx.scale(80, 800))
     run_fragment(ctx, 'frag', ctx.scale(300, 3000), 4)
     run_fragment(ctx, 'ext', ctx.scale(200, 2000), 4)
 
